@@ -675,10 +675,15 @@ func rulePointFields(w *World, r *Report) {
 			g := st.Parent()
 			k2 := fmt.Sprintf("object.Point / stored %s#%d", it.name, i+1)
 			if it.fv != latF {
-				if paramIndex(g, resolve(st.Val)) == 1 {
-					r.add("FIELDGUARD", k2, w.Pos(st.Pos()), Discharged, "the parameter is stored unchanged")
-				} else {
-					r.add("FIELDGUARD", k2, w.Pos(st.Pos()), Violated, "the stored "+it.name+" is not the setter's parameter itself ("+describeValue(st.Val)+")")
+				isSetter := g.Signature.Recv() != nil && strings.HasPrefix(g.Name(), "Set")
+				_, isParam := resolve(st.Val).(*ssa.Parameter)
+				switch {
+				case isSetter && paramIndex(g, resolve(st.Val)) == 1, !isSetter && isParam:
+					r.add("FIELDGUARD", k2, w.Pos(st.Pos()), Discharged, "a parameter is stored unchanged")
+				case isSetter && isArithOn(resolve(st.Val), g.Params[len(g.Params)-1]):
+					r.add("FIELDGUARD", k2, w.Pos(st.Pos()), Violated, "the stored "+it.name+" is computed from the setter's parameter instead of being the parameter itself ("+describeValue(st.Val)+")")
+				default:
+					r.add("FIELDGUARD", k2, w.Pos(st.Pos()), Undecided, "the stored "+it.name+" is not recognisably a parameter of "+w.FuncName(g)+" ("+describeValue(st.Val)+")")
 				}
 				continue
 			}
@@ -1484,4 +1489,23 @@ func reachesItself(c *ssa.Call) bool {
 		return false
 	}
 	return walk(c.Call.Args[0])
+}
+
+// isArithOn: v is arithmetic (or a math call) applied directly to p.
+func isArithOn(v ssa.Value, p ssa.Value) bool {
+	switch x := v.(type) {
+	case *ssa.BinOp:
+		return resolve(x.X) == p || resolve(x.Y) == p
+	case *ssa.UnOp:
+		return x.Op == token.SUB && resolve(x.X) == p
+	case *ssa.Call:
+		if g := calleeOf(x); g != nil && pkgOf(g) != nil && pkgOf(g).Path() == "math" {
+			for _, a := range x.Call.Args {
+				if resolve(a) == p {
+					return true
+				}
+			}
+		}
+	}
+	return false
 }
